@@ -10,7 +10,7 @@ use matchers::{Follow, WalkEntry};
 use std::cell::RefCell;
 use std::error::Error;
 use std::io::{stderr, stdout, Write};
-use std::path::PathBuf;
+use std::path::{Path, PathBuf};
 use std::rc::Rc;
 use std::time::SystemTime;
 use walkdir::WalkDir;
@@ -172,6 +172,8 @@ fn process_dir(
     }
 
     let mut ret = 0;
+    // %H and %P need the starting point as it was spelled on the command line.
+    let starting_point: Rc<Path> = Rc::from(Path::new(dir));
 
     // Slightly yucky loop handling here :-(. See docs for
     // WalkDirIterator::skip_current_dir for explanation.
@@ -187,7 +189,8 @@ fn process_dir(
     let mut walk_done = false;
     loop {
         let next = match it.next() {
-            Some(result) => WalkEntry::from_walkdir(result, config.follow),
+            Some(result) => WalkEntry::from_walkdir(result, config.follow)
+                .map(|entry| entry.with_starting_point(&starting_point)),
             None => {
                 walk_done = true;
                 match deferred_root.take() {
